@@ -400,6 +400,47 @@ def binop_atomic(vm, s, opname, a, b):
 _DUNDER = {"+": "__add__", "-": "__sub__", "*": "__mul__", "==": "__eq__", "!=": "__ne__", "<": "__lt__",
            "<=": "__le__", ">": "__gt__", ">=": "__ge__", "&": "__and__", "|": "__or__"}
 _FLIP = {"<": ">", "<=": ">=", ">": "<", ">=": "<=", "==": "==", "!=": "!="}
+def _has_dunder(v, name):
+    if type(v) is VInst and name in _DUNDER:
+        meth = static_lookup(v.cls, _DUNDER[name])
+        if meth is not MISSING and meth is not getattr(object, _DUNDER[name], None):
+            return meth
+    return None
+
+
+def _dunder_dispatch(vm, s, f, ins, name, a, b):
+    """operators on instances of interpreted classes that define the special method (also behind a Union)"""
+    if name not in _DUNDER:
+        return None
+    if type(a) is Union and any(_has_dunder(x, name) for _, x in a.alts):
+        a = vm.project(s, a, True)
+        if type(a) is Union:
+            def k(s2, alt):
+                f2 = s2.frames[-1]
+                f2.stack.append(alt)
+                f2.stack.append(b)
+                return _DISPATCH_LOCAL[ins.opname](vm, s2, f2, ins)
+            return vm.fork_union(s, a, k)
+    meth = _has_dunder(a, name)
+    if meth is not None:
+        return vm.do_call(s, meth, [a, b], {}, ("push",))
+    if name in ("==", "!=") and not isinstance(a, VObj) and type(a) is not Union:
+        if type(b) is Union and any(_has_dunder(x, name) for _, x in b.alts):
+            b = vm.project(s, b, True)
+            if type(b) is Union:
+                def k2(s2, alt):
+                    f2 = s2.frames[-1]
+                    f2.stack.append(a)
+                    f2.stack.append(alt)
+                    return _DISPATCH_LOCAL[ins.opname](vm, s2, f2, ins)
+                return vm.fork_union(s, b, k2)
+        meth = _has_dunder(b, name)
+        if meth is not None:
+            return vm.do_call(s, meth, [b, a], {}, ("push",))
+    return None
+
+
+_DISPATCH_LOCAL = {}
 _INPLACE = {"+=": "+", "-=": "-", "*=": "*", "/=": "/", "//=": "//", "%=": "%", "&=": "&", "|=": "|", "^=": "^",
             "<<=": "<<", ">>=": ">>", "**=": "**", "@=": "@"}
 
@@ -411,10 +452,9 @@ def _binary_op(vm, s, f, ins):
     name = ins.argrepr
     inplace = name in _INPLACE
     name = _INPLACE.get(name, name)
-    if type(a) is VInst and name in _DUNDER:
-        meth = static_lookup(a.cls, _DUNDER[name])
-        if meth is not MISSING and meth is not getattr(object, _DUNDER[name], None):
-            return vm.do_call(s, meth, [a, b], {}, ("push",))
+    r = _dunder_dispatch(vm, s, f, ins, name, a, b)
+    if r is not None:
+        return r
     if inplace and isinstance(a, VObj) and not isinstance(a, (VInst,)):
         r = C.inplace(vm, s, name, a, b)
     else:
@@ -427,10 +467,9 @@ def _compare_op(vm, s, f, ins):
     b = f.stack.pop()
     a = f.stack.pop()
     name = ins.argval
-    if type(a) is VInst and name in _DUNDER:
-        meth = static_lookup(a.cls, _DUNDER[name])
-        if meth is not MISSING and meth is not getattr(object, _DUNDER[name], None):
-            return vm.do_call(s, meth, [a, b], {}, ("push",))
+    r = _dunder_dispatch(vm, s, f, ins, name, a, b)
+    if r is not None:
+        return r
     f.stack.append(lift2(vm, s, a, b, lambda x, y: binop_atomic(vm, s, name, x, y)))
 
 
@@ -1345,3 +1384,7 @@ def _lae(vm, s, f, ins):
 @op("GET_LEN")
 def _get_len(vm, s, f, ins):
     f.stack.append(C.length(vm, s, f.stack[-1]))
+
+
+_DISPATCH_LOCAL["COMPARE_OP"] = _compare_op
+_DISPATCH_LOCAL["BINARY_OP"] = _binary_op
